@@ -77,14 +77,15 @@ theorem scalar_tuple_form_rejects (db : Db) (items : List Atom) (a2 : PyVal) (a3
     ∧ ((a2.isNone && a3.isNone) = false → construct db .scalar (.seq .tuple items) a2 a3 = .error .assertion) := by
   constructor
   · intro hl h2 h3
-    simp only [construct, scalarInit, h2, h3, Bool.and_self, Bool.not_true, Bool.false_eq_true, ↓reduceIte]
+    simp only [construct, scalarInit, scalarTupleForm, h2, h3, Bool.and_self, Bool.not_true, Bool.false_eq_true,
+      ↓reduceIte]
     match items, hl with
     | [], _ => rfl
     | [_], _ => rfl
     | [_, _], hl => simp at hl
     | _ :: _ :: _ :: _, _ => rfl
   · intro h
-    simp [construct, scalarInit, h]
+    simp [construct, scalarInit, scalarTupleForm, h]
 
 /-! ### `CreateWithQuantity` -/
 
@@ -134,8 +135,17 @@ theorem eq_self (q : Qty) :
     ∧ (∀ (k : SeqKind) (items : List Atom) (d : Int),
         Obj.eq ⟨q, .fixed (.seq k items) d⟩ ⟨q, .fixed (.seq k items) d⟩ = .ok true) := by
   refine ⟨fun v => by simp [Obj.eq], fun n f => by simp [Obj.eq], fun k items => ?_, fun k items d => ?_⟩
-  · simp [Obj.eq, arrayEq, pyTuple, atomsEq_refl]
-  · simp [Obj.eq, arrayEq, pyTuple, atomsEq_refl]
+  · simp [Obj.eq, arrayEq, pyTuple, elemsEq_refl]
+  · simp [Obj.eq, arrayEq, pyTuple, elemsEq_refl]
+
+/-- `o == o` is `True` as well for every Array/FixedArray whose value is a list or tuple of tuples
+(`[(100, 150), (50, 50)]`; any number of tuples of any sizes, ragged included) -/
+theorem eq_self_rows (q : Qty) (k : SeqKind) (rows : List (List Atom)) :
+    Obj.eq ⟨q, .arr (.rows k rows)⟩ ⟨q, .arr (.rows k rows)⟩ = .ok true
+    ∧ (∀ d : Int, Obj.eq ⟨q, .fixed (.rows k rows) d⟩ ⟨q, .fixed (.rows k rows) d⟩ = .ok true) := by
+  constructor
+  · simp [Obj.eq, arrayEq, pyTuple, elemsEq_refl]
+  · intro d; simp [Obj.eq, arrayEq, pyTuple, elemsEq_refl]
 
 /-- **`a == b` and `b == a` always give the same answer** (the same truth value, or a `TypeError`
 from `tuple(values)` on either side), for any two value objects of any classes -/
@@ -185,6 +195,7 @@ theorem create_stores_float (db : Db) (q : Qty) (x : PyVal) (v : Rat) (hx : x.is
     | fv n f => exact absurd rfl (hfv n f)
     | atom a => simp [create, internalCreate, fractionInternal, hv]
     | seq k l => simp [create, internalCreate, fractionInternal, hv]
+    | rows k l => simp [create, internalCreate, fractionInternal, hv]
     | qty q' => simp [create, internalCreate, fractionInternal, hv]
 
 /-- **all Scalar forms build one object holding `float(a)`, for every kind of number `a`** (floats,
@@ -307,6 +318,54 @@ theorem fixed_forms_equal {db : Db} {c u : Sym} {q : Qty} (f g : Option Rat) (k 
   have hcw := createWithQuantity_agrees db q x kw hn
   exact ⟨h0.trans hb, h1.trans hb, h2.trans hb, h4.trans hb,
     (hcw.2.2.2.2 d d' hl).trans hb, (hcw.2.2.2.1 d d').trans hb, (eq_self q).2.2.2 k items d⟩
+
+/-- **the Array and FixedArray forms build one object from a list (or tuple) of tuples**, whatever
+the number `n` of tuples and their sizes (square, non-square, ragged): the FixedArray dimension is the
+number of tuples, `len(values)`, also when `CreateWithQuantity` infers it -/
+theorem rows_forms_equal {db : Db} {c u : Sym} {q : Qty} (f g : Option Rat) (k : SeqKind) (rows : List (List Atom))
+    (kw : Bool) (d' : Int)
+    (hc : getDefaultCategory db u = .ok (some c)) (hc0 : c ≠ 0)
+    (hq : newQuantity db (.str c none) u = .ok q) :
+    (construct db .array (.rows k rows) (.atom (.str u g)) .none = .ok ⟨q, .arr (.rows k rows)⟩
+      ∧ construct db .array (.rows k rows) (.atom (.str u g)) (.str c f) = .ok ⟨q, .arr (.rows k rows)⟩
+      ∧ construct db .array (.atom (.str c f)) (.rows k rows) (.str u g) = .ok ⟨q, .arr (.rows k rows)⟩
+      ∧ construct db .array (.qty q) (.rows k rows) .none = .ok ⟨q, .arr (.rows k rows)⟩
+      ∧ createWithQuantity db .array q (.rows k rows) kw none = .ok ⟨q, .arr (.rows k rows)⟩
+      ∧ Obj.eq ⟨q, .arr (.rows k rows)⟩ ⟨q, .arr (.rows k rows)⟩ = .ok true)
+    ∧ (2 ≤ rows.length →
+      construct db (.fixed rows.length) (.rows k rows) (.atom (.str u g)) .none = .ok ⟨q, .fixed (.rows k rows) rows.length⟩
+      ∧ construct db (.fixed rows.length) (.rows k rows) (.atom (.str u g)) (.str c f)
+          = .ok ⟨q, .fixed (.rows k rows) rows.length⟩
+      ∧ construct db (.fixed rows.length) (.atom (.str c f)) (.rows k rows) (.str u g)
+          = .ok ⟨q, .fixed (.rows k rows) rows.length⟩
+      ∧ construct db (.fixed rows.length) (.qty q) (.rows k rows) .none = .ok ⟨q, .fixed (.rows k rows) rows.length⟩
+      ∧ createWithQuantity db (.fixed d') q (.rows k rows) kw none = .ok ⟨q, .fixed (.rows k rows) rows.length⟩
+      ∧ createWithQuantity db (.fixed d') q (.rows k rows) kw (some rows.length)
+          = .ok ⟨q, .fixed (.rows k rows) rows.length⟩
+      ∧ Obj.eq ⟨q, .fixed (.rows k rows) rows.length⟩ ⟨q, .fixed (.rows k rows) rows.length⟩ = .ok true) := by
+  have hx : ∃ x : PyVal, x = .rows k rows := ⟨_, rfl⟩
+  obtain ⟨x, hxe⟩ := hx
+  rw [← hxe]
+  have hn : x.isNone = false := by rw [hxe]; rfl
+  have hcw := createWithQuantity_agrees db q x kw hn
+  constructor
+  · have hv : x.isValueFor .array = true := by rw [hxe]; cases k <;> rfl
+    have hb := (create_builds db q).2.2.2.1 x hn
+    obtain ⟨h1, h2, _, h4⟩ := forms_with_category_agree f g .array _ hq hv
+    obtain ⟨h0, _⟩ := form_without_category_agrees g .array _ hc hc0 hq hv
+    exact ⟨h0.trans hb, h1.trans hb, h2.trans hb, h4.trans hb, (hcw.2.2.1).trans hb, hxe ▸ (eq_self_rows q k rows).1⟩
+  · intro hd
+    have hd' : ∃ d : Int, d = rows.length := ⟨_, rfl⟩
+    obtain ⟨d, hde⟩ := hd'
+    rw [← hde]
+    have hv : x.isValueFor (.fixed d) = true := by rw [hxe]; cases k <;> rfl
+    have hl : pyLen x = .ok d := by rw [hxe, hde]; rfl
+    have hd2 : (2 : Int) ≤ d := by omega
+    have hb := (create_builds db q).2.2.2.2 x d hn hd2 hl
+    obtain ⟨h1, h2, _, h4⟩ := forms_with_category_agree f g (.fixed d) _ hq hv
+    obtain ⟨h0, _⟩ := form_without_category_agrees g (.fixed d) _ hc hc0 hq hv
+    exact ⟨h0.trans hb, h1.trans hb, h2.trans hb, h4.trans hb,
+      (hcw.2.2.2.2 d d' hl).trans hb, (hcw.2.2.2.1 d d').trans hb, hxe ▸ (eq_self_rows q k rows).2 d⟩
 
 /-! ### the category alone -/
 
@@ -524,6 +583,27 @@ theorem posc_fixed_forms_equal : ∀ r ∈ poscDb.units, ∃ c, getDefaultCatego
   intro r hr
   obtain ⟨c, hc, hc0, hq⟩ := posc_default_category_resolves r hr
   exact ⟨c, hc, fun f g k items kw d' hd => fixed_forms_equal f g k items kw d' hd hc hc0 hq⟩
+
+/-- for every unit: Array and FixedArray forms on lists/tuples of tuples (any shape) build one object,
+with the FixedArray dimension = number of tuples in every form -/
+theorem posc_rows_forms_equal : ∀ r ∈ poscDb.units, ∃ c, getDefaultCategory poscDb r.sym = .ok (some c) ∧
+    ∀ (f g : Option Rat) (k : SeqKind) (rows : List (List Atom)) (kw : Bool) (d' : Int),
+      (construct poscDb .array (.rows k rows) (.atom (.str r.sym g)) .none = .ok ⟨⟨c, r.sym⟩, .arr (.rows k rows)⟩
+        ∧ createWithQuantity poscDb .array ⟨c, r.sym⟩ (.rows k rows) kw none = .ok ⟨⟨c, r.sym⟩, .arr (.rows k rows)⟩)
+      ∧ (2 ≤ rows.length →
+        construct poscDb (.fixed rows.length) (.rows k rows) (.atom (.str r.sym g)) .none
+          = .ok ⟨⟨c, r.sym⟩, .fixed (.rows k rows) rows.length⟩
+        ∧ construct poscDb (.fixed rows.length) (.atom (.str c f)) (.rows k rows) (.str r.sym g)
+          = .ok ⟨⟨c, r.sym⟩, .fixed (.rows k rows) rows.length⟩
+        ∧ createWithQuantity poscDb (.fixed d') ⟨c, r.sym⟩ (.rows k rows) kw none
+          = .ok ⟨⟨c, r.sym⟩, .fixed (.rows k rows) rows.length⟩
+        ∧ createWithQuantity poscDb (.fixed d') ⟨c, r.sym⟩ (.rows k rows) kw (some rows.length)
+          = .ok ⟨⟨c, r.sym⟩, .fixed (.rows k rows) rows.length⟩) := by
+  intro r hr
+  obtain ⟨c, hc, hc0, hq⟩ := posc_default_category_resolves r hr
+  refine ⟨c, hc, fun f g k rows kw d' => ?_⟩
+  have h := rows_forms_equal f g k rows kw d' hc hc0 hq
+  exact ⟨⟨h.1.1, h.1.2.2.2.2.1⟩, fun hd => ⟨(h.2 hd).1, (h.2 hd).2.2.1, (h.2 hd).2.2.2.2.1, (h.2 hd).2.2.2.2.2.1⟩⟩
 
 /-- for every unit and **every category that shares the unit's quantity** (any category that accepts
 the unit): the forms naming the category agree on every value argument, for all four classes -/
